@@ -21,7 +21,7 @@ VERIF = os.path.dirname(os.path.dirname(os.path.abspath(__file__)))
 REPO = os.environ.get("QV_REPO", "/repo")
 SRC = os.environ.get("QV_SRC", os.path.join(REPO, "include"))
 QUILL = os.path.join(SRC, "quill")
-CACHE = os.path.join(VERIF, ".cache")
+CACHE = os.environ.get("QV_CACHE") or (os.path.join(os.environ["QV_OUT"], ".cache") if os.environ.get("QV_OUT") else os.path.join(VERIF, ".cache"))
 PLUGIN = os.path.join(VERIF, "engine", "qfacts.so")
 
 CONFIGS = {
@@ -112,7 +112,8 @@ def extract(witness, config="A", extra_flags=()):
     for f in os.listdir(CACHE):
         if f.startswith(prefix) and os.path.join(CACHE, f) != out and ".tmp" not in f:
             try:
-                os.unlink(os.path.join(CACHE, f))
+                if time.time() - os.path.getmtime(os.path.join(CACHE, f)) > 1800:
+                    os.unlink(os.path.join(CACHE, f))
             except OSError:
                 pass
     return out
@@ -172,7 +173,7 @@ def strip(n, casts=False):
         if k == "CallExpr" and n.get("callee") == "__builtin_expect" and n.get("args"):
             n = n["args"][0]
             continue
-        if casts and k == "CXXConstructExpr" and n.get("elidable") and n.get("args"):
+        if casts and k == "CXXConstructExpr" and (n.get("elidable") or n.get("copy")) and n.get("args"):
             n = n["args"][0]
             continue
         return n
@@ -596,7 +597,15 @@ class Graph:
     def term_cond(self, bid):
         b = self.blocks[bid]
         c = b.get("cond")
-        return self.fn.nodes.get(c) if c is not None else None
+        n = self.fn.nodes.get(c) if c is not None else None
+        # clang reports the whole `A || B` as the condition of the block that evaluates the last operand:
+        # the value that decides this block's branch is the right-most leaf
+        while True:
+            s = strip(n) if n is not None else None
+            if isnode(s) and s["k"] == "BinaryOperator" and s["op"] in ("&&", "||"):
+                n = s["rhs"]
+                continue
+            return n
 
     def reach(self, srcs, avoid_nodes=(), avoid_edges=(), include_src=False):
         """set of nodes reachable from srcs (after leaving them) without entering avoid_nodes
